@@ -513,6 +513,8 @@ def to_tuple(it, v):
         return SymSeq(v.length, v.arr, v.ety, "tuple")
     if isinstance(v, KeyIter):
         return v
+    if isinstance(v, SV) and isinstance(v.ty, (TOpaque, TSeqT)):
+        return v  # opaque sequence-like ghost value (e.g. parities of a sector)
     raise Unsupported(f"tuple() of {type(v).__name__}")
 
 
